@@ -1,4 +1,163 @@
+/-
+  C20 — Licenses and key ciphers round-trip.
+  Property-level statements only; helper lemmas are in Emitter/Lemmas/Cipher.lean.
+-/
+import Emitter.Lemmas.Cipher
 import Emitter.Model.License
 namespace Emitter.C20
-theorem placeholder : True := trivial
+open Emitter Emitter.Cipher Emitter.License
+
+/-! ## regenerated facts (re-checked against /repo's constants on every run) -/
+
+/-- `xteaSum` is `delta * rounds` (the comment in xtea.go says "should be") -/
+theorem fact_xtea_sum : xteaSum = UInt32.ofNat xteaRounds * xteaDelta := xteaSum_eq
+
+/-- the alphabet has 64 distinct characters, none of them CR/LF or a padding '=' -/
+theorem fact_alphabet : alphabet.length = 64 ∧ alphabet.Nodup ∧ (13 : UInt8) ∉ alphabet ∧ (10 : UInt8) ∉ alphabet
+    ∧ (61 : UInt8) ∉ alphabet := by decide
+
+/-! ## key ciphers -/
+
+/-- Under each cipher, every 24-byte key encrypts to a 32-character string over the alphabet
+that decrypts to the same key — for every XTEA key and every Salsa key/nonce. -/
+theorem key_roundtrip (c : CipherSpec) (k : Bytes) (hk : k.length = 24) :
+    ∃ e, encryptKey c k = .ok e ∧ e.length = 32 ∧ (∀ ch ∈ e, (decodeMap ch == 0xFF) = false) ∧
+      decryptKey c e = .ok k := by
+  have hraw : (encryptRaw c k).length = 24 := by
+    cases c with
+    | xtea key => simp [encryptRaw, mapBlocks_length, whiten_length, hk]
+    | salsa key nonce => simp [encryptRaw, xorBytes_length, hk]
+    | shuffle key nonce => simp [encryptRaw, shuffleCrypt_length, hk]
+  have hdec : decryptRaw c (encryptRaw c k) = k := by
+    cases c with
+    | xtea key =>
+        simp only [encryptRaw, decryptRaw]
+        rw [mapBlocks_inv (encBlock key) (decBlock key) (decBlock_encBlock key), whiten_invol]
+    | salsa key nonce => simp [encryptRaw, decryptRaw, xorBytes_invol]
+    | shuffle key nonce => simp [encryptRaw, decryptRaw, shuffleCrypt_invol]
+  have henc : encryptKey c k = .ok (b64Encode (encryptRaw c k)) := by
+    cases c with
+    | xtea key =>
+        have : ¬ k.length < 24 := by omega
+        simp [encryptKey, this, List.take_of_length_le (Nat.le_of_eq hk)]
+    | salsa key nonce =>
+        have : (k ++ List.replicate 24 0).take 24 = k := by
+          rw [← hk, List.take_left]
+        simp only [encryptKey, this]
+    | shuffle key nonce =>
+        have : (k ++ List.replicate 24 0).take 24 = k := by
+          rw [← hk, List.take_left]
+        simp only [encryptKey, this]
+  have hlen : (b64Encode (encryptRaw c k)).length = 32 := by
+    rw [b64Encode_length _ (by omega), hraw]
+  refine ⟨_, henc, hlen, b64Encode_valid _, ?_⟩
+  simp [decryptKey, hlen, decodeKey, decodeKeyAux_encode, hdec]
+
+/-- distinct keys give distinct strings -/
+theorem encrypt_injective (c : CipherSpec) (k₁ k₂ : Bytes) (h₁ : k₁.length = 24) (h₂ : k₂.length = 24)
+    (h : encryptKey c k₁ = encryptKey c k₂) : k₁ = k₂ := by
+  obtain ⟨e₁, he₁, _, _, hd₁⟩ := key_roundtrip c k₁ h₁
+  obtain ⟨e₂, he₂, _, _, hd₂⟩ := key_roundtrip c k₂ h₂
+  rw [he₁, he₂] at h
+  cases h
+  rw [hd₁] at hd₂
+  cases hd₂
+  rfl
+
+/-- strings that are not 32 valid characters are rejected with an error (never a panic, never a key) -/
+theorem reject_invalid (c : CipherSpec) (s : Bytes)
+    (h : s.length ≠ 32 ∨ ∃ ch ∈ s, (decodeMap ch == 0xFF) = true) : ∃ e, decryptKey c s = .err e := by
+  unfold decryptKey
+  by_cases hl : s.length = 32
+  · rcases h with h | h
+    · exact absurd hl h
+    · obtain ⟨e, he⟩ := decodeKeyAux_err s 0 h
+      simp [hl, decodeKey, he]
+  · simp [hl]
+
+/-- decryption is total: any input yields a key or an error -/
+theorem decrypt_total (c : CipherSpec) (s : Bytes) : (decryptKey c s).isPanic = false := by
+  unfold decryptKey
+  split
+  · rfl
+  · split <;> simp_all [Outcome.isPanic]
+    rename_i w h
+    -- decodeKey never panics
+    have : ∀ s idx w, decodeKeyAux s idx ≠ .panic w := by
+      intro s idx w
+      fun_induction decodeKeyAux s idx <;> simp_all
+    exact absurd h (this _ _ _)
+
+/-- v2 / v3 are XOR stream ciphers: the round trip holds for *every* keystream (so it does not
+depend on the transcription of Salsa20), and for v3 for every salt-indexed family of keystreams. -/
+theorem stream_roundtrip (ks bs : Bytes) : xorBytes (xorBytes bs ks) ks = bs := xorBytes_invol bs ks
+theorem shuffle_roundtrip (ks : UInt8 → UInt8 → Bytes) (bs : Bytes) :
+    shuffleCrypt ks (shuffleCrypt ks bs) = bs := shuffleCrypt_invol ks bs
+
+/-- XTEA: deciphering a block inverts enciphering it, for every key and block -/
+theorem xtea_block_roundtrip (k : XteaKey) (y z : UInt32) :
+    decBlock k (encBlock k y z).1 (encBlock k y z).2 = (y, z) := decBlock_encBlock k y z
+
+/-! non-vacuity: a concrete key under a concrete XTEA cipher -/
+example : ∃ e, encryptKey (.xtea ⟨1, 2, 3, 4⟩) (List.replicate 24 7) = .ok e ∧ e.length = 32 ∧
+    (∀ ch ∈ e, (decodeMap ch == 0xFF) = false) ∧ decryptKey (.xtea ⟨1, 2, 3, 4⟩) e = .ok (List.replicate 24 7) :=
+  key_roundtrip (.xtea ⟨1, 2, 3, 4⟩) (List.replicate 24 7) (by simp)
+
+/-! ## licenses -/
+
+/-- `Parse` yields a license or an error for every string and every behaviour (including a
+panic) of the external v2/v3 body decoder. -/
+theorem parse_total (body : Nat → Bytes → Outcome V23) (data : Bytes) : (parse body data).isPanic = false := by
+  unfold parse
+  split <;> simp_all [Outcome.isPanic]
+
+theorem hasSuffix_append (a suf : Bytes) : hasSuffix (a ++ suf) suf = true := by
+  simp [hasSuffix]
+
+theorem filter_valid (s : Bytes) (h : ∀ ch ∈ s, (decodeMap ch == 0xFF) = false) :
+    s.filter (fun c => c != 13 && c != 10) = s := by
+  rw [List.filter_eq_self]
+  intro ch hm
+  have h13 : (decodeMap 13 == 0xFF) = true := by decide
+  have h10 : (decodeMap 10 == 0xFF) = true := by decide
+  have := h ch hm
+  by_cases c13 : ch = 13
+  · subst c13; simp_all
+  · by_cases c10 : ch = 10
+    · subst c10; simp_all
+    · simp [c13, c10]
+
+theorem stdDecode_encode (x : Bytes) : stdDecode (b64Encode x) = .ok x := by
+  unfold stdDecode
+  rw [filter_valid _ (b64Encode_valid x), decodeKeyAux_encode]
+
+/-- a v1 license string parses back to the same license (generated licenses have `expires = 0`) -/
+theorem v1_roundtrip (body : Nat → Bytes → Outcome V23) (l : V1) (hk : l.encKey.length = 16)
+    (he : l.expires = 0) : parse body l.toString = .ok (.v1 l) := by
+  obtain ⟨k, u, s, e, t⟩ := l
+  simp only at hk he
+  subst he
+  match k, hk with
+  | [k0, k1, k2, k3, k4, k5, k6, k7, k8, k9, k10, k11, k12, k13, k14, k15], _ =>
+    -- the 32 raw bytes
+    let X : Bytes := [k0, k1, k2, k3, k4, k5, k6, k7, k8, k9, k10, k11, k12, k13, k14, k15,
+      UInt8.ofNat (u.toNat / 16777216), UInt8.ofNat (u.toNat / 65536), UInt8.ofNat (u.toNat / 256), UInt8.ofNat u.toNat,
+      UInt8.ofNat (s.toNat / 16777216), UInt8.ofNat (s.toNat / 65536), UInt8.ofNat (s.toNat / 256), UInt8.ofNat s.toNat,
+      0, 0, 0, 0,
+      UInt8.ofNat (t.toNat / 16777216), UInt8.ofNat (t.toNat / 65536), UInt8.ofNat (t.toNat / 256), UInt8.ofNat t.toNat]
+    have hstr : V1.toString ⟨[k0, k1, k2, k3, k4, k5, k6, k7, k8, k9, k10, k11, k12, k13, k14, k15], u, s, 0, t⟩
+        = b64Encode X ++ [58, 49] := by
+      simp [V1.toString, putBe32, X]
+    have hXlen : (b64Encode X).length = 43 := by simp [X, b64Encode]
+    rw [hstr]
+    unfold parse parseInner
+    have h5 : ¬ (b64Encode X ++ [58, 49]).length < 5 := by simp [hXlen]
+    have htake : (b64Encode X ++ [58, 49]).take ((b64Encode X ++ [58, 49]).length - 2) = b64Encode X := by
+      simp
+    simp only [h5, if_false, hasSuffix_append, if_true, htake]
+    unfold parseV1
+    rw [stdDecode_encode]
+    have hz : be32 0 0 0 0 = 0 := by decide
+    simp [X, Outcome.map, Outcome.bind, be32_putBe32, be32_putBe32', hz]
+
 end Emitter.C20
